@@ -79,6 +79,8 @@ class Requests(Part):
         ts = case["ts"]
         state = {"objcalls": 0, "trains": 0, "i": 0, "last_true": None, "last_pred": None}
         accepts = case["accepts"]
+        predshapes = ["list", "zero", "array", "tuple", "zero-array", "list", "zero-list"]
+        rng.shuffle(predshapes)
 
         def objective(ind):
             state["objcalls"] += 1
@@ -133,7 +135,22 @@ class Requests(Part):
                     return None
                 p = sur.predict(individual.vector)
                 v = [float(p[0][0]), float(p[0][1])] if fl == "scikit" else [123.0, 456.0]
+                # "returns a value": anything but None -- a list, a tuple, a numpy array, a bare number (also 0.0: a legitimate prediction)
+                shape = predshapes[i % len(predshapes)]
+                if shape == "tuple":
+                    v = tuple(v)
+                elif shape == "array":
+                    import numpy as np
+                    v = np.array(v)
+                elif shape == "zero":
+                    v = 0.0
+                elif shape == "zero-array":
+                    import numpy as np
+                    v = np.array([0.0])
+                elif shape == "zero-list":
+                    v = [0.0, 0.0]
                 state["last_pred"] = v
+                state["pred_made"] = True
                 return v
             problem.predict = predict_hook
         problem.surrogate = sur
@@ -142,6 +159,7 @@ class Requests(Part):
         for i, acc in enumerate(accepts):
             state["i"] = i
             state["last_true"] = state["last_pred"] = None
+            state["pred_made"] = False
             # vectors come from a small pool: the same design may be requested (and truly evaluated) several times
             ind = Individual(list(rng.choice(vpool)))
             ndata_before = len(sur.x_data)
@@ -155,9 +173,9 @@ class Requests(Part):
                 if state["last_true"] is not None:
                     ev["kind"] = "eval"
                     ev["returned_true"] = val is state["last_true"] or list(val) == state["last_true"]
-                elif state["last_pred"] is not None:
+                elif state["pred_made"]:
                     ev["kind"] = "predict"
-                    ev["returned_pred"] = list(val) == state["last_pred"]
+                    ev["returned_pred"] = val is state["last_pred"]
                 else:
                     ev["kind"] = "nothing"
                 if len(sur.x_data) != len(sur.y_data):
